@@ -281,6 +281,16 @@ func help1(c *Ctx) {
 		if acc == nil {
 			problems = append(problems, "no list of visible sub-commands is built from all declared commands")
 		} else {
+			// the list starts empty and owns its storage (not a re-slice of the command tree's own list)
+			for i, e := range acc.Edges {
+				if acc.Block().Dominates(acc.Block().Preds[i]) {
+					continue
+				}
+				_, isMake := e.(*ssa.MakeSlice)
+				if !ir.IsNilConst(e) && !isMake {
+					problems = append(problems, "the list of visible sub-commands does not start as a fresh empty list (appending to a re-slice of the declared commands would overwrite them)")
+				}
+			}
 			for i, e := range acc.Edges {
 				p := acc.Block().Preds[i]
 				if e == ssa.Value(acc) {
